@@ -98,3 +98,78 @@ Lemma forallb_filter {A} (p g:A->bool) l : forallb g (filter p l) = forallb (fun
 Proof. induction l as [|a l IH]; simpl; auto. destruct (p a); simpl; rewrite IH; reflexivity. Qed.
 Lemma existsb_beq_in x l : existsb (beq x) l = true -> In x l.
 Proof. intros H. apply existsb_exists in H as [y [Hy E]]. apply beq_eq in E. subst. exact Hy. Qed.
+
+(* ---- cardinalities ---- *)
+Lemma kob_len keys x : length x = length keys -> py_len (keys_of_bv keys x) = Z.of_nat (cnt x).
+Proof. unfold py_len. revert x. induction keys as [|a keys IH]; intros [|b x] Hl; simpl in Hl; try discriminate; [reflexivity|].
+  injection Hl as Hl. specialize (IH x Hl). cbn [keys_of_bv cnt]. destruct b; cbn [length]; lia. Qed.
+Lemma fold_min_assoc r x y : Nat.min x (fold_left Nat.min r y) = fold_left Nat.min r (Nat.min x y).
+Proof. revert x y. induction r as [|z r IH]; intros x y; simpl; [reflexivity|]. rewrite IH. f_equal. lia. Qed.
+Lemma minl_fold x r : minl (x::r) = Some (fold_left Nat.min r x).
+Proof. revert x. induction r as [|y r IH]; intros x; [reflexivity|].
+  change (minl (x::y::r)) with (match minl (y::r) with None => Some x | Some m => Some (Nat.min x m) end).
+  rewrite IH. simpl. f_equal. apply fold_min_assoc. Qed.
+Lemma zfold_min r x : fold_left Z.min (map Z.of_nat r) (Z.of_nat x) = Z.of_nat (fold_left Nat.min r x).
+Proof. revert x. induction r as [|y r IH]; intros x; simpl; [reflexivity|]. rewrite <- Nat2Z.inj_min. apply IH. Qed.
+Lemma py_min_minl {R L} l m : minl l = Some m -> @py_min R L (map Z.of_nat l) = Next (Z.of_nat m).
+Proof. destruct l as [|x r]; [discriminate|]. rewrite minl_fold. intros E. injection E as <-. simpl. rewrite zfold_min. reflexivity. Qed.
+Lemma minl_char l m : In m l -> (forall x, In x l -> m <= x) -> minl l = Some m.
+Proof. intros Hin Hle. destruct (minl l) as [m'|] eqn:E; [|apply minl_none in E; subst; inversion Hin].
+  pose proof (minl_le l m' m E Hin). pose proof (minl_in l m' E) as Hin'. specialize (Hle m' Hin'). f_equal. lia. Qed.
+Lemma minl_minimal l : minl (map cnt (minimal l)) = minl (map cnt l).
+Proof. destruct (minl (map cnt l)) as [m|] eqn:E.
+  - pose proof (minl_in _ _ E) as Hin. apply in_map_iff in Hin as [x0 [Ex0 Hx0]].
+    destruct (minimal_below l x0 Hx0) as [y [Hy Hs]]. apply minl_char.
+    + apply in_map_iff. exists y. split; [|exact Hy]. apply sub_cnt in Hs.
+      assert (m <= cnt y). { apply (minl_le _ _ _ E). apply in_map. apply minimal_in in Hy. tauto. } lia.
+    + intros c Hc. apply in_map_iff in Hc as [z [<- Hz]]. apply (minl_le _ _ _ E). apply in_map. apply minimal_in in Hz. tauto.
+  - apply minl_none in E. apply map_eq_nil in E. subst. reflexivity. Qed.
+(* the sets of least cardinality are inclusion-minimal *)
+Lemma least_in_minimal l m x : minl (map cnt l) = Some m ->
+  (In x (minimal l) /\ cnt x = m <-> In x l /\ cnt x = m).
+Proof. intros E. split; intros [H1 H2]; split; auto.
+  - apply minimal_in in H1. tauto.
+  - unfold minimal. apply filter_In. split; [exact H1|]. apply negb_true_iff.
+    destruct (existsb (fun y => ssub y x) l) eqn:Ex; [|reflexivity]. exfalso.
+    apply existsb_exists in Ex as [y [Hy Hs]]. apply ssub_cnt in Hs.
+    assert (m <= cnt y) by (apply (minl_le _ _ _ E); apply in_map; exact Hy). lia. Qed.
+Lemma existsb_same_in {A} (p:A->bool) l l' : (forall x, In x l <-> In x l') -> existsb p l = existsb p l'.
+Proof. intros H. destruct (existsb p l) eqn:E1, (existsb p l') eqn:E2; auto.
+  - apply existsb_exists in E1 as [x [Hx Hp]]. assert (existsb p l' = true) by (apply existsb_exists; exists x; split; [apply H|]; auto). congruence.
+  - apply existsb_exists in E2 as [x [Hx Hp]]. assert (existsb p l = true) by (apply existsb_exists; exists x; split; [apply H|]; auto). congruence. Qed.
+Lemma forallb_same_in {A} (p:A->bool) l l' : (forall x, In x l <-> In x l') -> forallb p l = forallb p l'.
+Proof. intros H. destruct (forallb p l) eqn:E1, (forallb p l') eqn:E2; auto.
+  - assert (forallb p l' = true); [|congruence]. apply forallb_forall. intros x Hx. eapply forallb_forall in E1; eauto. apply H; auto.
+  - assert (forallb p l = true); [|congruence]. apply forallb_forall. intros x Hx. eapply forallb_forall in E2; eauto. apply H; auto. Qed.
+
+(* ---- more loop shapes ---- *)
+(* the body returns r on the first element that passes, otherwise goes on *)
+Lemma for_each_any_map {A B R L} (f:A->B) (l:list A) (body:B -> unit -> ctl R unit unit) (g:A->bool) (r:R) :
+  (forall a, In a l -> body (f a) tt = if g a then Return r else Next tt) ->
+  @for_each B R L unit (map f l) body tt = if existsb g l then Return r else Next tt.
+Proof. induction l as [|a l IH]; intros Hb; [reflexivity|]. cbn [map for_each existsb].
+  rewrite Hb by (left; reflexivity). destruct (g a); cbn [orb]; [reflexivity|].
+  apply IH. intros a' Ha. apply Hb. right. exact Ha. Qed.
+(* a flag that starts true, is set to false by a break on the first element that fails *)
+Lemma for_each_break_map {A B R L} (f:A->B) (l:list A) (body:B -> bool -> ctl R bool bool) (ok:A->bool) :
+  (forall a, In a l -> body (f a) true = if ok a then Next true else Break false) ->
+  @for_each B R L bool (map f l) body true = Next (forallb ok l).
+Proof. induction l as [|a l IH]; intros Hb; [reflexivity|]. cbn [map for_each forallb].
+  rewrite Hb by (left; reflexivity). destruct (ok a); cbn [andb]; [|reflexivity].
+  apply IH. intros a' Ha. apply Hb. right. exact Ha. Qed.
+Lemma fold_pair {A B K} (f:K->A->A) (g:K->B->B) l a b :
+  fold_left (fun (p:A*B) k => let '(x, y) := p in (f k x, g k y)) l (a, b) = (fold_left (fun x k => f k x) l a, fold_left (fun y k => g k y) l b).
+Proof. revert a b. induction l as [|k l IH]; intros a b; [reflexivity|]. simpl. apply IH. Qed.
+Lemma existsb_filter {A} (p g:A->bool) l : existsb g (filter p l) = existsb (fun x => p x && g x) l.
+Proof. induction l as [|a l IH]; simpl; auto. destruct (p a); simpl; rewrite IH; reflexivity. Qed.
+Lemma existsb_guard_same {A} (p g:A->bool) l l' : (forall x, (In x l /\ p x = true) <-> (In x l' /\ p x = true)) ->
+  existsb (fun x => p x && g x) l = existsb (fun x => p x && g x) l'.
+Proof. intros H. rewrite <- !existsb_filter. apply existsb_same_in. intros x. rewrite !filter_In. apply H. Qed.
+Lemma forallb_guard_same {A} (p g:A->bool) l l' : (forall x, (In x l /\ p x = true) <-> (In x l' /\ p x = true)) ->
+  forallb (fun x => negb (p x) || g x) l = forallb (fun x => negb (p x) || g x) l'.
+Proof. intros H. rewrite <- !forallb_filter. apply forallb_same_in. intros x. rewrite !filter_In. apply H. Qed.
+Lemma minimal_nil_iff l : minimal l = [] <-> l = [].
+Proof. split; [|intros ->; reflexivity]. intros H. destruct l as [|x l]; [reflexivity|].
+  destruct (minimal_below (x::l) x (or_introl eq_refl)) as [y [Hy _]]. rewrite H in Hy. inversion Hy. Qed.
+Lemma of_nat_ltb a b : (Z.of_nat a <? Z.of_nat b)%Z = (a <? b).
+Proof. destruct (a <? b) eqn:E; [apply Nat.ltb_lt in E; apply Z.ltb_lt; lia|apply Nat.ltb_ge in E; apply Z.ltb_ge; lia]. Qed.
